@@ -174,6 +174,16 @@ func c03Obj(v c03Val) slip.Object {
 	case "vec":
 		l := c03Elems(v.V)
 		return slip.NewVector(len(l), slip.TrueSymbol, nil, l, true)
+	case "hash":
+		var kvs [][]c03Val
+		if err := json.Unmarshal(v.V, &kvs); err != nil {
+			panic(err)
+		}
+		ht := slip.HashTable{}
+		for _, kv := range kvs {
+			ht[c03Obj(kv[0])] = c03Obj(kv[1])
+		}
+		return ht
 	case "array":
 		flat := c03Elems(v.V)
 		if len(v.Dims) == 0 {
@@ -244,6 +254,12 @@ func c03Project(o slip.Object) h.V {
 			items = append(items, c03Project(e))
 		}
 		return h.V{"k": "vec", "v": items}
+	case slip.HashTable:
+		items := []any{}
+		for k, v := range t {
+			items = append(items, []any{c03Project(k), c03Project(v)})
+		}
+		return h.V{"k": "hash", "v": items}
 	case *slip.Array:
 		items := []any{}
 		for _, e := range t.Elements() {
